@@ -255,7 +255,9 @@ def o4b(h, st):
 
 def dmet_structures(tier):
     sts = [{"mol": "H4ring", "frags": [1, 1, 1, 1], "solver": "fci", "loc": "meta_lowdin"}, {"mol": "H4ring", "frags": [4], "solver": "fci", "loc": "meta_lowdin"},
-           {"mol": "H4ring", "frags": [2, 2], "solver": "fci", "loc": "meta_lowdin"}]
+           {"mol": "H4ring", "frags": [2, 2], "solver": "fci", "loc": "meta_lowdin"},
+           # a basis larger than minimal with the truncation of the virtual space switched OFF (threshold exactly 0., as documented): fragment + bath span everything
+           {"mol": "H4ring", "frags": [2, 2], "solver": "fci", "loc": "meta_lowdin", "basis": "3-21g", "vot": 0.0}]
     if tier != "quick":
         sts += [{"mol": "H4ring", "frags": [2, 2], "solver": "ccsd", "loc": "meta_lowdin"}, {"mol": "H4ring", "frags": [1, 1, 1, 1], "solver": "fci", "loc": "iao"},
                 {"mol": "H4chain", "frags": [2, 2], "solver": "fci", "loc": "meta_lowdin"}, {"mol": "H4chain", "frags": [4], "solver": "ccsd", "loc": "meta_lowdin"}]
@@ -279,10 +281,11 @@ def o5(h, st):
         xyz = [("H", (0.0, 0.0, 0.0)), ("H", (0.1, 0.2, 0.8)), ("H", (1.3, 0.1, 1.0)), ("H", (1.5, -0.6, 2.1))]
     else:
         xyz = [("H", (0.0, 0.0, 0.9 * k)) for k in range(4)]
-    basis = "minao" if st["loc"] == "meta_lowdin" else "3-21g"       # IAO localisation refuses minimal basis sets
+    basis = st.get("basis") or ("minao" if st["loc"] == "meta_lowdin" else "3-21g")       # IAO localisation refuses minimal basis sets
     mol = SecondQuantizedMolecule(xyz, 0, 0, basis=basis)
     loc = Localization.meta_lowdin if st["loc"] == "meta_lowdin" else Localization.iao
-    opts = {"molecule": mol, "fragment_atoms": list(st["frags"]), "fragment_solvers": st["solver"], "electron_localization": loc, "verbose": False}
+    extra = {"virtual_orbital_threshold": st["vot"]} if "vot" in st else {}
+    opts = {"molecule": mol, "fragment_atoms": list(st["frags"]), "fragment_solvers": st["solver"], "electron_localization": loc, "verbose": False, **extra}
     d = h.call(DM, "DMETProblemDecomposition", opts)
     h.call(DM, "DMETProblemDecomposition.build", d)
     e = h.call(DM, "DMETProblemDecomposition.simulate", d)
@@ -296,7 +299,7 @@ def o5(h, st):
         # relabel: reversed atom order with the corresponding nested fragment lists
         order = list(range(4))[::-1]
         mol2 = SecondQuantizedMolecule([xyz[i] for i in order], 0, 0, basis=basis)
-        opts2 = {"molecule": mol2, "fragment_atoms": list(st["frags"])[::-1], "fragment_solvers": st["solver"], "electron_localization": loc, "verbose": False}
+        opts2 = {"molecule": mol2, "fragment_atoms": list(st["frags"])[::-1], "fragment_solvers": st["solver"], "electron_localization": loc, "verbose": False, **extra}
         d2 = h.call(DM, "DMETProblemDecomposition", opts2)
         h.call(DM, "DMETProblemDecomposition.build", d2)
         e2 = h.call(DM, "DMETProblemDecomposition.simulate", d2)
@@ -308,7 +311,7 @@ def o5(h, st):
         for size in st["frags"]:
             nested.append([pos[a] for a in range(k, k + size)])
             k += size
-        opts3 = {"molecule": mol3, "fragment_atoms": nested, "fragment_solvers": st["solver"], "electron_localization": loc, "verbose": False}
+        opts3 = {"molecule": mol3, "fragment_atoms": nested, "fragment_solvers": st["solver"], "electron_localization": loc, "verbose": False, **extra}
         d3 = h.call(DM, "DMETProblemDecomposition", opts3)
         h.call(DM, "DMETProblemDecomposition.build", d3)
         e3 = h.call(DM, "DMETProblemDecomposition.simulate", d3)
